@@ -343,13 +343,17 @@ def cases(draw):
             return f'{v}["k"]'
         if r < 94:
             return f'[{v}[0], {v}]'
-        if r < 97:
+        if r < 93:
             return f'({v} if True else {pick(VARS)})'
+        if r < 96:
+            return pick([f'({v} or [])', f'({v} and {pick(VARS)})', f'({v} + {pick(VARS)})', f'[{v} or 1]', '{"v": %s or []}' % v, f'(None or {v})'])
         return f'get(y, "a")'
 
     def stmt():
         r = n(100)
         v = pick(VARS)
+        if r < 4:
+            return pick([f'{v}[0] = {v}[0]', f'{v}[1] = {v}[1]', 'y["a"] = y["a"]', 'y["a"] = get(y, "a", [])', f'{v}["k"] = {v}["k"] or []'])
         if r < 30:
             return f'{v} = {src_expr()}'
         if r < 42:
